@@ -26,7 +26,7 @@ claim("C12", "round-trip property over generated trees crossed with the complete
       "Generated executable documents (hostile string contents, directives everywhere, fragment variables, comments) are parsed, formatted under all 112 configurations (16 option subsets x 7 indents), re-parsed and compared by projection; the formatter must be a fixpoint on its own output.",
       "Equality is on the harness projection (block string == quoted string of equal value; alias equal to name == no alias). Search, not proof, over documents; exhaustive over configurations.",
       "6/C12")
-claim("C19", "round-trip property over generated trees",
+claim("C19", "round-trip property over generated trees (incl. names spelt like the encoding's own member names, wide and deep documents)",
       "Parsed generated documents and the repository's example queries are encoded with encoding/json and decoded back; projections (positions and comments excluded) must be equal and a second trip stable.",
       "Search over the tree generator's distribution; equality on the harness projection.",
       "6/C19")
@@ -42,19 +42,19 @@ claim("C17", "metamorphic testing: permutations and partitions of top-level piec
       "Each generated schema is loaded in a single-source baseline order, with extensions first (one and two sources), reversed, and under 4 (quick) / 20 (thorough) random permutations partitioned into 1-5 named sources; verdict and canonical schema must be identical, and a load error must name a file containing a piece of a definition the reference validator reports as involved.",
       "Fields are compared as sets per type as the property states; 'involved' is the union over all violations the reference reports, so the file check is sound but coarse.",
       "6/C17")
-claim("C08", "differential testing against a reference validator over typed generators: valid-by-construction documents, 1-3 injected faults from a 46-operator catalogue, type-blind documents",
+claim("C08", "differential testing against a reference validator over typed generators: valid-by-construction documents, 1-3 injected faults from a 49-operator catalogue (rarely applicable ones tried first and alone in a third of the cases), type-blind, dense-overlap and introspection documents",
       "For generated (schema, document) pairs the emptiness of validator.Validate's error list must equal the verdict of an independent implementation of the validation section of the specification (plus the introspection depth rule). Documents valid by construction must be accepted, documents with an injected fault rejected; the generator and every fault operator are cross-checked against the reference on every case.",
       "Trusted: harness/ref/validate.go, calibrated against the 398 applicable graphql-js cases imported by the repository (TestSelfValidator). Two deviations that cannot be repaired without API changes are recorded as known findings with exact relaxations.",
       "6/C08")
 claim("C02", "generated-input search with a crash/termination oracle over typed and type-blind generators, plus size-parametrised adversarial families with wall-time bounds",
-      "Valid, faulty and random schemas crossed with valid, faulty, misspelt and type-blind documents go through LoadSchema, ParseSchemas+ValidateSchemaDocument, Validate and LoadQuery; every call must return normally with a well-formed result and the two load paths must agree. Twenty families of pathological shape (fragment fan-out in four positions, cycles through fields, wide/deep same-name selections, wide unions, large literals) are validated at 256 B to 4 KB under absolute and growth bounds.",
-      "Absence of crashes is established only on what was explored; time bounds are wall-clock with a 10x margin over the slowest legitimate family member on the unchanged tree (about 1 s at 4 KB).",
+      "Valid, faulty and random schemas crossed with valid, faulty, misspelt and type-blind documents go through LoadSchema, ParseSchemas+ValidateSchemaDocument, Validate and LoadQuery; every call must return normally with a well-formed result and the two load paths must agree. Twenty-eight families of pathological shape (every fan-out also with a back edge), random fragment-graph documents (fragment fan-out in four positions, cycles through fields, wide/deep same-name selections, wide unions, large literals) are validated at 256 B to 4 KB under absolute and growth bounds.",
+      "Absence of crashes is established only on what was explored; time bounds are wall-clock (1 KB < 2 s, 4 KB < 30 s, ratio per doubling <= 20) against a slowest legitimate family member that is cubic and needs 65 ms at 1 KB and 3.6 s at 4 KB on the unchanged tree.",
       "6/C02")
-claim("C09", "model-based check of annotations: independent traversal that resolves every node by name through the loaded schema",
+claim("C09", "model-based check of annotations: independent traversal that resolves every node by name through the loaded schema, under the default rules, random rule subsets and a bare walk",
       "For generated valid pairs every link the walker leaves on the document is recomputed independently and compared by pointer identity with the schema's definitions: fields, parents, spreads, inline fragments, fragment definitions, directives and locations, variable definitions, expected type and definition of every typed value (lists, input objects, list-coerced singles), and the definition of every variable use.",
       "Only documents that pass validation are in scope (as the property states); resolution uses the loaded schema's own maps, whose closure is C07's subject.",
       "6/C09")
-claim("C10", "metamorphic repetition: fresh runs in-process, re-validation of the same tree, and freshly started child processes over error-biased and tie-biased generated pairs",
+claim("C10", "metamorphic repetition: fresh loads and runs in-process, re-validation of the same tree, and freshly started child processes over error-biased and tie-biased generated pairs (incl. schemas extending built-in types)",
       "For generated invalid, misspelt (equal-distance candidates) and type-blind pairs and for schemas with two independent faults the complete error list must be identical over 8/16 fresh runs, on re-validating the same parsed document, and in 3 child processes.",
       "Go randomises map iteration per range statement, so in-process repetition samples iteration orders; three child processes sample hash seeds. One recorded deviation (re-validation with fragment cycles) is modelled narrowly.",
       "6/C10")
@@ -63,11 +63,11 @@ claim("C18", "algebraic law over configurations: exhaustive singletons + random 
       "Every Validate call receives a freshly parsed document, so the law is about rules, not about leftover annotations (that is C10's re-validation clause).",
       "6/C18")
 claim("C11", "stateful property-based testing (rapid state machine with a deep snapshot invariant) plus generated concurrent workloads under the Go race detector",
-      "A rapid state machine issues validate / coerce / resolve-arguments / format actions against one loaded schema and compares a deep snapshot (every field, pointer identity, slice capacities) after each step. Generated job mixes are then precomputed sequentially and issued by 2-32 goroutines started together on the shared schema; each result must equal the sequential one, the snapshot must be unchanged, and the binary (built with -race, halt_on_error) must report no race.",
+      "A rapid state machine issues validate / coerce / resolve-arguments / format actions against one loaded schema and compares a deep snapshot (every field, pointer identity, slice capacities) after each step. Generated job mixes are then precomputed sequentially and issued by 2-32 goroutines started together on the shared schema; each result must equal the sequential one, the snapshot must be unchanged, and the binary (built with -race, halt_on_error) must report no race. Every call is also repeated later in its history, and a sample of calls once more after all histories and as the only call of a freshly started process: same result required.",
       "Schedules are whatever the runtime produced in the run; the race detector's happens-before analysis extends this to unsynchronised accesses that did not overlap in time. A race cannot be shrunk: the in-flight history is reported as the replay.",
       "6/C11")
 claim("C14", "model-based testing of the coercer: type-directed generation of JSON-like Go values in many representations, nine defect operators, conformance predicate as oracle",
-      "For generated variable types (list depth <= 3, all non-null patterns, scalars, enum, recursive and oneOf input objects, custom scalar) conforming values in 14 Go representations are generated, optionally damaged at a random depth or omitted; VariableValues must return normally, return values xor an error, and every returned value must satisfy an independent conformance predicate.",
+      "For generated variable types (list depth <= 3, all non-null patterns, scalars, enum, recursive and oneOf input objects, custom scalar) conforming values in 14 Go representations are generated, optionally damaged at a random depth or omitted; VariableValues must return normally, return values xor an error, and every returned value must satisfy an independent conformance predicate; a supplied value that cannot conform must be rejected, an explicit null stays null, an absent variable holds its declared default.",
       "Acceptance of conforming input is not claimed by the property and only recorded as a statistic. One deviation (inner list coercion discarded) is recorded with a relaxation restricted to nested positions.",
       "6/C14")
 claim("C15", "differential testing of argument resolution against a reference resolver on generated valid triples",
